@@ -28,7 +28,7 @@ LEVEL = "model_checking"
 ENGINE = "PEX"
 TECHNIQUE = "explicit-state search over all event orders, Python constraint-store model"
 RULE = ("every permutation of every multiset of <= 2 posts (9 kinds: 3 dif, 2 freeze, 4 when) and "
-        "<= 2 (quick) / <= 3 (thorough) bindings (7 kinds) over X,Y,Z, at least one post; per sequence: "
+        "<= 2 (quick) / <= 3 (thorough) bindings (7 kinds) over X,Y,Z, at least one post (thorough also 3 posts with <= 2 bindings); per sequence: "
         "failing event, goals woken per event, final bindings, ground completions over {a,b,f(a)} of the "
         "live store and of the copy_term/3 residual goals. Non-trivial: a post precedes a binding that "
         "touches one of its variables.")
@@ -103,7 +103,8 @@ c26_call_all([G|Gs]) :- call(G), c26_call_all(Gs).
 
 def bound_text(tier):
     nb = 3 if tier == "thorough" else 2
-    return "all permutations of all multisets of 1..2 posts (9 kinds) and 0..%d bindings (7 kinds)" % nb
+    return ("all permutations of all multisets of 1..2 posts (9 kinds) and 0..%d bindings (7 kinds)" % nb +
+            ("; 3 posts and 0..2 bindings" if tier == "thorough" else ""))
 
 
 # ---------------------------------------------------------------------------
@@ -112,15 +113,15 @@ def bound_text(tier):
 def multisets(tier):
     nb = 3 if tier == "thorough" else 2
     out = []
-    for np_ in (1, 2):
+    for np_ in ((1, 2, 3) if tier == "thorough" else (1, 2)):
         for ps in itertools.combinations_with_replacement(PORDER, np_):
-            for k in range(0, nb + 1):
+            for k in range(0, (2 if np_ == 3 else nb) + 1):
                 for bs in itertools.combinations_with_replacement(BORDER, k):
                     out.append(list(ps) + list(bs))
     return out
 
 
-NSHARDS = {"quick": 32, "thorough": 96}
+NSHARDS = {"quick": 32, "thorough": 192}
 
 
 def shards(tier):
